@@ -381,3 +381,23 @@ package keeper
 //@        ebReleased(originalCtx, res_GetPendingUndelegationRecords_0[rangeindex]) ||
 //@        ebReleasedNative(originalCtx, res_GetPendingUndelegationRecords_0[rangeindex]) ||
 //@        ebRequeued(originalCtx, res_GetPendingUndelegationRecords_0[rangeindex])
+
+// ---------------------------------------------------------------------------------------------
+// C04: the undelegations of an operator handed to a visitor are exactly those started at or after the height filter
+// (no filter: all of them): a record is skipped only if its key's height is below the filter, and is visited only
+// if it is not. The callback contract is what any visitor passed in may do (assumed; the visitors in /repo are
+// under their own contracts): it may change the record it is given, and is counted in the ghost trace.
+//@ func (*Keeper).IterateUndelegationsByOperator#opFunc
+//@   flag assumed
+//@   modifies *undelegation
+//@   emits mkEv(60, "visit", 0)
+
+//@ func (*Keeper).IterateUndelegationsByOperator
+//@   modifies store(ctx, "delegation"), trace, heap["x/delegation/types.UndelegationRecord"]
+//@   before[C04.iubo.filter] #opFunc requires heightFilter != nil ==> res_ParseUndelegationRecordKey_0.BlockHeight >= *heightFilter
+//@   before[C04.iubo.record] #opFunc requires *arg_undelegation == unm["x/delegation/types.UndelegationRecord"](res_Value_0)
+//@   ensures[C04.iubo.readonly] !isUpdate ==> state(ctx) == old(state(ctx))
+//@ loop #1
+//@   invariant !isUpdate ==> state(ctx) == old(state(ctx))
+//@   step[C04.iubo.visit] traceN() == old(traceN()) + 1 ||
+//@        (heightFilter != nil && res_ParseUndelegationRecordKey_0.BlockHeight < *heightFilter && traceN() == old(traceN()) && state(ctx) == old(state(ctx)))
